@@ -6,20 +6,23 @@ The verdict is rustc's and is obtained by compiling (tools/props/c11.py). What i
 `Model/Ast.lean` (type inference incl. `find_recursions`), `Model/AstGen.lean` (`skeleton`: every
 generated type and action signature, every call of the shift / reduce arms with its arguments;
 `Skel.wellFormed`: names declared once per namespace, references declared, every by-value containment
-cycle broken by Box/Vec, arm arguments of the parameters' types, the two assumptions of the generated Vec
-action bodies). The skeleton of the model is compared
-TEXTUALLY with the items of the generated files on every run, and `Skel.wellFormed` with rustc's verdict.
+cycle broken by Box/Vec, arm arguments of the parameters' types, the assumptions of the generated Vec
+action bodies). The skeleton of the model is compared TEXTUALLY with the items of the generated files on
+every run, and `Skel.wellFormed` with rustc's verdict.
 
-Proved here: the DFS that places the `Box`es breaks every reference cycle (`C11_box_breaks_cycles`), the
-sizedness check is sound (`C11_sized_sound`, run as a certificate on every skeleton), arms of
-productions that are not right-nulled are well typed (`C11_arms_typed_partial`). The full statement
-`C11_statement` is false of the code as it is (F12, F13: counterexamples below).
+`Fixes.repo` is /repo as it is now: the repairs of F22, F23, the `C`-rule case of F13 and the
+`Option<Box<_>>` case of F12 have landed; `Fixes.asWas` is the code before them. Proved: the DFS that
+places the `Box`es breaks every reference cycle (`C11_box_breaks_cycles`), the sizedness check is sound
+(`C11_sized_sound`, run as a certificate on every skeleton), arms of productions that are not
+right-nulled are well typed (`C11_arms_typed_partial`), each repaired witness is well formed now and
+was not before. The full statement `C11_statement Fixes.repo` is still false (F12 for non-Option tails,
+F13 for the remaining name collisions: counterexamples below).
 -/
 namespace Rustemo.Ast
 
 /-- The model-level full statement: the skeleton of every grammar is well formed. -/
-def C11_statement : Prop :=
-  ∀ (g : AGrammar) (ts : List SymType), symbolTypes g = some ts → (skeleton g ts).wellFormed = true
+def C11_statement (fx : Fixes) : Prop :=
+  ∀ (g : AGrammar) (ts : List SymType), symbolTypes fx g = some ts → (skeleton fx g ts).wellFormed = true
 
 /-- **Box breaks cycles.** `findRecursions` is the DFS of `SymbolTypes::find_recursions` on the
 reference graph of the inferred types (one edge per `Ref` choice / struct field / `Ref`- or `Vec`-kind
@@ -35,9 +38,9 @@ theorem C11_box_breaks_cycles (ts : List SymType) (start : String) (st : DfsSt)
 /-- non-vacuity: `E: left=E KA right=E {Add} | KB A KB; A: E | Num;` — the search terminates, the cycles
 `E → E` (both fields) and `E → A → E` exist and get marks (note `E` finished twice: the start symbol is
 not in `visiting`). -/
-example : findRecursions (refGraph (rawTypes gRec)) "E"
+example : findRecursions (refGraph (rawTypes .repo gRec)) "E"
     = some { flags := [("A", 0), ("E", 1), ("E", 0)], visited := ["Num", "A", "E", "E"] } := by decide
-example : EdgeAt (refGraph (rawTypes gRec)) "E" 2 "A" ∧ EdgeAt (refGraph (rawTypes gRec)) "A" 0 "E" :=
+example : EdgeAt (refGraph (rawTypes .repo gRec)) "E" 2 "A" ∧ EdgeAt (refGraph (rawTypes .repo gRec)) "A" 0 "E" :=
   ⟨⟨["E", "E", "A"], by decide, by decide⟩, ⟨["E", "Num"], by decide, by decide⟩⟩
 
 /-- **Sizedness certificate.** When `Skel.sized` answers `true` no set of declared types is tied into
@@ -46,58 +49,77 @@ particular there is no containment cycle, the cause of rustc's E0072. -/
 theorem C11_sized_sound (s : Skel) (h : s.sized = true) : ¬ ∃ C, Knot s.contain C :=
   sized_sound s h
 
-example : (skeleton gRec (typesOf gRec)).sized = true := by decide
+example : (skelNow gRec).sized = true := by decide
 
-/-- **Arms of full length are well typed** (partial `C11_skeleton_well_formed`): for a production that
-is not right-nulled — every production when the table is LR — each call of its reduce arm passes
-arguments of exactly the parameter types, provided the call resolves to the action generated for the
-production (hypothesis `hsig`: this is what `Skel.namesDistinct` buys, cf. F13), whose parameters are
-the production's content symbols. Missing for the full statement: the resolution of names (F13) and the
-right-nulled arms (F12); both are real defects. -/
-theorem C11_arms_typed_partial (s : Skel) (ts : List SymType) (nt : String) (c : Choice) (p : AProd)
+/-- **Arms of full length are well typed** (partial `C11_skeleton_well_formed`), for every variant: for
+a production that is not right-nulled — every production when the table is LR — each call of its
+reduce arm passes arguments of exactly the parameter types, provided the call resolves to the action
+generated for the production (hypothesis `hsig`: this is what `Skel.namesDistinct` buys, cf. F13), whose
+parameters are the production's content symbols. Missing for the full statement: the resolution of
+names (F13) and the right-nulled arms (F12); both are real, recorded defects. -/
+theorem C11_arms_typed_partial (fx : Fixes) (s : Skel) (ts : List SymType) (nt : String) (c : Choice) (p : AProd)
     (names : List String) (hrn : p.rnLen = p.rhs.length)
     (hsig : s.fnSig (actionName nt c) = some (List.zip names ((contentRhs p).map (fun a => Ty.named a.2.name))))
     (hlen : names.length = (contentRhs p).length) :
-    ∀ call ∈ prodCalls ts nt c p, s.callOk call = true :=
-  calls_ok_of_full_length s ts nt c p names hrn hsig hlen
+    ∀ call ∈ prodCalls fx ts nt c p, s.callOk call = true :=
+  calls_ok_of_full_length fx s ts nt c p names hrn hsig hlen
 
 /-- non-vacuity: the whole skeleton of the LR variant of the F12 witness is well formed -/
-example : (skeleton (gTail false) (typesOf (gTail false))).wellFormed = true := by decide
+example : (skelNow (gTail false)).wellFormed = true := by decide
 
-/-- **Finding F12.** GLR + default builder, `S: Num A; A: B T; B: Num | EMPTY; T: Id | EMPTY;`: the
-right-nulled arm of `S` passes `None` for `A`, whose type is a struct — the skeleton is ill-typed
+/-! ## what remains false of /repo as it is (recorded findings) -/
+
+/-- **Finding F12 (recorded).** GLR + default builder, `S: Num A; A: B T; B: Num | EMPTY; T: Id | EMPTY;`:
+the right-nulled arm of `S` passes `None` for `A`, whose type is a struct — the skeleton is ill-typed
 (rustc: E0308), although names, references and sizedness are fine. -/
 theorem C11_counterexample_nulled_tail :
-    (skeleton (gTail true) (typesOf (gTail true))).armsTyped = false ∧
-    (skeleton (gTail true) (typesOf (gTail true))).namesDistinct = true ∧
-    (skeleton (gTail true) (typesOf (gTail true))).refsDeclared = true ∧
-    (skeleton (gTail true) (typesOf (gTail true))).sized = true := by decide
+    (skelNow (gTail true)).armsTyped = false ∧ (skelNow (gTail true)).namesDistinct = true ∧
+    (skelNow (gTail true)).refsDeclared = true ∧ (skelNow (gTail true)).sized = true := by decide
 
 /-- … whereas a right-nulled tail that IS an Option is fine: `S: Num A; A: Id | EMPTY;` under GLR. -/
-example : (skeleton (gOptTail true) (typesOf (gOptTail true))).wellFormed = true := by decide
+example : (skelNow (gOptTail true)).wellFormed = true := by decide
 
-/-- **Finding F13.** `A` with production kind `BP1` and `AB` with its first production both give the
-`ProdKind` variant `ABP1` (rustc: E0428). -/
-theorem C11_counterexample_name_clash : (skeleton gClash (typesOf gClash)).namesDistinct = false := by decide
+/-- **Finding F13 (recorded).** `A` with production kind `BP1` and `AB` with its first production both
+give the `ProdKind` variant `ABP1` (rustc: E0428). -/
+theorem C11_counterexample_name_clash : (skelNow gClash).namesDistinct = false := by decide
 
-/-- **Finding F23.** `@vec V: V Num | myItem=Num;`: the body of the single-element action refers to
-`to_snake_case(name)` = `my_item`, the parameter is called `myItem` (rustc: E0425). -/
-theorem C11_counterexample_vec_label :
-    (skeleton gVecLabel (typesOf gVecLabel)).vecLabelsOk = false ∧
-    (skeleton gVecLabel (typesOf gVecLabel)).vecLabels = ["myItem"] := by decide
-
-/-- **Finding F22.** `@vec V: V Num | W | Num; W: KB W | Id;` is taken for a `Vec<Num>` (`ChoiceKind::Ref`
-overwrites `single` in `get_type_kind`): the action of `V: W` builds `vec![w]` from a `W`, and the
-recursive `W` is never visited by `find_recursions` (it is not a reference of `V`'s type), so it is not
-boxed: not sized (rustc: E0308 and E0072). -/
-theorem C11_counterexample_vec_alt :
-    (skeleton gVecAlt (typesOf gVecAlt)).vecAltsOk = false ∧ (skeleton gVecAlt (typesOf gVecAlt)).sized = false := by
+/-- hence the full statement is false of /repo as it is -/
+theorem C11_counterexample_statement : ¬ C11_statement Fixes.repo := by
+  intro h
+  have := h (gTail true) (typesNow (gTail true)) (by decide)
+  revert this
   decide
 
-/-- hence the full statement is false of the code as it is -/
-theorem C11_counterexample_statement : ¬ C11_statement := by
+/-! ## the repaired findings: false of the code as it was, true of /repo as it is -/
+
+/-- **F23 (repaired).** `@vec V: V Num | myItem=Num;`: the body of the single-element action referred to
+`to_snake_case(name)` = `my_item` while the parameter is called `myItem` (rustc: E0425). -/
+theorem C11_counterexample_vec_label :
+    (skelWas gVecLabel).vecLabelsOk = false ∧ (skelWas gVecLabel).vecLabels = ["myItem"] := by decide
+theorem C11_fixed_vec_label : (skelNow gVecLabel).wellFormed = true := by decide
+
+/-- **F22 (repaired).** `@vec V: V Num | W | Num; W: KB W | Id;` was taken for a `Vec<Num>` (`ChoiceKind::Ref`
+overwrote `single` in `get_type_kind`): the action of `V: W` built `vec![w]` from a `W`, and the recursive
+`W` was never visited by `find_recursions` (no reference of `V`'s type), so it was not boxed (E0308, E0072).
+Now the rule is an enum and `W` is reached and boxed. -/
+theorem C11_counterexample_vec_alt :
+    (skelWas gVecAlt).vecAltsOk = false ∧ (skelWas gVecAlt).sized = false := by decide
+theorem C11_fixed_vec_alt : (skelNow gVecAlt).wellFormed = true := by decide
+
+/-- **F13, rule named `C` (repaired).** With `builder_loc_info` the header imported `Context as C`,
+colliding with the type of a rule `C` (E0255); it now imports the trait anonymously. -/
+theorem C11_counterexample_rule_c : (skelWas gRuleC).namesDistinct = false := by decide
+theorem C11_fixed_rule_c : (skelNow gRuleC).wellFormed = true := by decide
+
+/-- **F12, `Option<Box<_>>` (repaired).** `S: KA B; B: y=Num x=A; A: B | EMPTY;` under GLR: `type A =
+Option<Box<B>>` was right-nulled with `Box::new(None)` (E0308); now with `None`. -/
+theorem C11_counterexample_opt_box : (skelWas gOptBox).armsTyped = false := by decide
+theorem C11_fixed_opt_box : (skelNow gOptBox).wellFormed = true := by decide
+
+/-- the statement was false of the old code for these reasons as well -/
+theorem C11_counterexample_statement_as_was : ¬ C11_statement Fixes.asWas := by
   intro h
-  have := h (gTail true) (typesOf (gTail true)) (by decide)
+  have := h gVecLabel (typesWas gVecLabel) (by decide)
   revert this
   decide
 
